@@ -64,6 +64,13 @@ def locks():
     P.append(prog(125, "corpus_locks", [
         [op("spawn", v=1), op("read", o=0, w=0), op("yield"), op("unlock", w=0), op("join", v=1)],
         [op("try_write", o=0, w=0), op("unlock_if", w=0), op("try_read", o=0, w=1), op("unlock_if", w=1)]], nrw=1))
+    # re-entrant try_read by a current reader: WouldBlock, and nothing is consumed (a later writer gets in)
+    P.append(prog(127, "corpus_locks", [
+        [op("read", o=0, w=0), op("try_read", o=0, w=1), op("unlock_if", w=1), op("unlock", w=0),
+         op("write", o=0, w=0), op("ginc", w=0), op("unlock", w=0)]], nrw=1))
+    P.append(prog(128, "corpus_locks", [
+        [op("spawn", v=1), op("read", o=0, w=0), op("try_read", o=0, w=1), op("unlock_if", w=1), op("unlock", w=0), op("join", v=1)],
+        [op("write", o=0, w=0), op("ginc", w=0), op("unlock", w=0)]], nrw=1))
     # counter: three increments under the lock are never lost
     P.append(prog(126, "corpus_locks", [
         [op("spawn", v=1), op("spawn", v=2), op("lock", o=0, w=0), op("ginc", w=0), op("unlock", w=0), op("join", v=1), op("join", v=2), op("lock", o=0, w=0), op("gget", w=0), op("unlock", w=0)],
